@@ -187,9 +187,18 @@ def add_updates(rng, c, k, names=None):
     for _ in range(k):
         which = names or ([rng.choice(present)] if rng.random() < 0.7 else
                           [n for n in present if rng.random() < 0.6] or [rng.choice(present)])
-        ups.append({"set": {n: [g[n]() for _ in range(len(c[n]))] for n in which},
-                    "order": rng.choice(["rp", "pr", "r", "p"])})
+        u = {"set": {n: [g[n]() for _ in range(len(c[n]))] for n in which},
+             "order": rng.choice(["rp", "pr", "r", "p"])}
+        if rng.random() < 0.5:
+            # a device/dtype move (a no-op conversion on this machine) on SOME object of the graph between the
+            # previous read and this assignment: the model, a parameter holder, what the holder wraps, or a sibling
+            # model sharing the parameter
+            u["gmove"] = {"on": rng.choice(["model", "holder", "inner", "sibling"]), "name": rng.choice(present),
+                          "how": rng.choice(["cpu", "to", "to_dtype"])}
+        ups.append(u)
     c["updates"] = ups
+    if rng.random() < 0.5:
+        c["sibling"] = True
     return c
 
 
@@ -263,6 +272,7 @@ def run_impl(c):
 
     pars = {}
     supplied = {}
+    graph = {}
     regime = regime_of(c)
     in_dtype = {"f64": torch.float64, "f32default": torch.float64, "f32in": torch.float32, "int": torch.int64}[regime]
 
@@ -364,6 +374,7 @@ def run_impl(c):
         for name in ("shape", "inv", "mu"):
             if c.get(name) is not None:
                 pars[name] = dic["sm." + name]
+        graph["dic"] = dic
         return m
 
     def observe(m):
@@ -417,6 +428,44 @@ def run_impl(c):
         return ("ok", r.detach().double().reshape(-1, r.shape[-1]).tolist(),
                 p.detach().double().reshape(-1, p.shape[-1]).tolist(), meta)
 
+    def do_move(obj, how):
+        if how == "cpu":
+            obj.cpu()
+        elif how == "to":
+            obj.to(torch.device("cpu"))
+        else:
+            obj.to(in_dtype if in_dtype.is_floating_point else torch.float64)
+
+    def inner_of(holder):
+        """what a holder wraps: x of a TransformedParameter, the shared vector of a view, the pieces of a cat"""
+        for attr in ("x", "parameter"):
+            if hasattr(holder, attr) and hasattr(getattr(holder, attr), "fire_parameter_changed"):
+                return [getattr(holder, attr)]
+        cont = getattr(holder, "_parameter_container", None)
+        if cont is not None:
+            try:
+                return list(cont.params())
+            except Exception:
+                return []
+        return []
+
+    def graph_move(m, gm):
+        name = gm["name"] if gm.get("name") in pars else (sorted(pars)[0] if pars else None)
+        on = gm["on"]
+        if on == "model" or name is None:
+            do_move(m, gm["how"])
+        elif on == "holder":
+            do_move(pars[name], gm["how"])
+        elif on == "inner":
+            targets = inner_of(pars[name])
+            if uses_srd06(c) and name == "mu" and graph.get("dic"):
+                targets = [graph["dic"]["srd06.mus"]]
+            for t_ in targets or [pars[name]]:
+                do_move(t_, gm["how"])
+        elif on == "sibling":
+            sib = graph.get("sibling")
+            do_move(sib if sib is not None else m, gm["how"])
+
     def move(m):
         if c.get("move") == "cpu":
             m.cpu()
@@ -432,6 +481,12 @@ def run_impl(c):
         try:
             m = build()
             OBSERVED[:] = observe(m)
+            if c.get("sibling") and pars:
+                # a second model sharing a parameter object with the one under test
+                share = "mu" if "mu" in pars else sorted(pars)[0]
+                graph["sibling"] = ConstantSiteModel("sib", pars[share]) if share == "mu" else \
+                    InvariantSiteModel("sib", pars[share] if share == "inv" else Parameter("sib.p", torch.tensor([0.5])),
+                                       None) if share == "inv" else WeibullSiteModel("sib", pars[share], 3)
             if c.get("grad") == "requires_grad":
                 for par_ in pars.values():
                     if par_.tensor.is_floating_point():
@@ -457,10 +512,18 @@ def run_impl(c):
                 return outs
         for i, u in enumerate(c.get("updates", [])):
             try:
+                if u.get("gmove"):
+                    graph_move(m, u["gmove"])
                 for name, v in u["set"].items():
                     if name == "mu" and uses_srd06(c):
                         continue  # the shared SRD06 vector is not reassigned through its view
-                    pars[name].tensor = tens(name, v)
+                    if u.get("via") == "inner" and hasattr(pars[name], "x") and hasattr(pars[name], "transform"):
+                        pars[name].x.tensor = pars[name].transform.inv(tens(name, v))  # the wrapped parameter itself
+                    else:
+                        pars[name].tensor = tens(name, v)
+                if u.get("srd06_y") and uses_srd06(c) and graph.get("dic"):
+                    # the CLI layout: the simplex srd06.mu under the ConvexCombinationTransform is what moves
+                    graph["dic"]["srd06.mu"].tensor = torch.tensor(u["srd06_y"], dtype=torch.float64)
                 if c.get("move") and i % 2 == 0:
                     move(m)
                 outs.append(read(m, u.get("order", "rp")))
@@ -827,7 +890,11 @@ def run(ck: Check):
                         c["batch"] = {n: batched for n in names}
                         c["holder"] = {n: (hk if n == target else "plain") for n in names}
                         c["route"] = {"kind": rk, "order": ck.rng.randrange(1000), "form": "inline", "fulltype": False}
-                        add_updates(ck.rng, c, 1, names=[target])
+                        add_updates(ck.rng, c, 3, names=[target])
+                        c["sibling"] = True
+                        for u, on in zip(c["updates"], ck.rng.sample(["inner", "holder", "sibling", "model"], 3)):
+                            u["gmove"] = {"on": on, "name": target, "how": ck.rng.choice(["cpu", "to", "to_dtype"])}
+                            u["via"] = ck.rng.choice(["holder", "inner"])
                         cases.append((c, "holders"))
     for kind, K in (("const", None), ("inv", None), ("weibull", 4)):
         for view in ("0:1", "1:2"):
@@ -840,6 +907,15 @@ def run(ck: Check):
             if kind == "inv":
                 c["inv"] = [g["inv"]()]
             c["batch"] = {n: False for n in ("shape", "inv", "mu") if n in c}
+            c["sibling"] = True
+            # read -> a (no-op) move somewhere in the graph -> the simplex under the transform moves -> read
+            ups = []
+            for on in ("inner", "holder", "model", "sibling"):
+                y2 = ck.rng.uniform(0.1, 0.9)
+                ups.append({"set": {}, "srd06_y": [y2, 1.0 - y2], "order": ck.rng.choice(["rp", "pr"]),
+                            "gmove": {"on": on, "name": "mu", "how": ck.rng.choice(["cpu", "to", "to_dtype"])}})
+            ck.rng.shuffle(ups)
+            c["updates"] = ups
             cases.append((c, "srd06"))
     # integer-typed parameter tensors (accepted by the API): the values are those of the same floats
     for K in (1, 3, 4):
